@@ -696,13 +696,18 @@ func runC10(c *Check, w *World) {
 		}
 	}
 	c.Count("functions_in_scope", len(x.scope))
-	// HMAC output length from the constructor table
-	if table, _, err := hashTableOf(w, tb, "otp.hmacPools", "new"); err == nil && len(table) > 0 {
-		for _, name := range table {
-			sz, ok := hashSizes[name]
-			if !ok {
+	// HMAC output length: every Sum call in scope is traced to its hash constructors — a table of constructors
+	// indexed by the algorithm, or hmac.New applied to one of several hash constructors
+	{
+		var fs []*ssa.Function
+		for f := range x.scope {
+			fs = append(fs, f)
+		}
+		sortFuncs(fs)
+		note := func(sz int64, known bool) {
+			if !known {
 				x.sumLo = bi(0)
-				continue
+				return
 			}
 			if x.sumLo == nil || bi(sz).Cmp(x.sumLo) < 0 {
 				x.sumLo = bi(sz)
@@ -711,11 +716,46 @@ func runC10(c *Check, w *World) {
 				x.sumHi = bi(sz)
 			}
 		}
-	}
-	if w.Cfg.Name == CfgWasm.Name {
-		// the wasm derivation chooses among the same three hashes by a switch
-		if x.sumLo == nil || x.sumLo.Cmp(bi(20)) > 0 {
-			x.sumLo = bi(20)
+		unknown := false
+		for _, f := range fs {
+			for _, sum := range sumCallsIn(f) {
+				st := tb.Of(sum)
+				if len(st.Args) == 0 {
+					unknown = true
+					continue
+				}
+				for _, macT := range st.Args[0].Alts() {
+					switch {
+					case macT.Op == "calldyn" && len(macT.Args) == 2 && macT.Args[0].Op == "field" && macT.Args[0].Args[0].Op == "index" && macT.Args[0].Args[0].Args[0].Op == "gval":
+						table, _, err := hashTableOf(w, tb, macT.Args[0].Args[0].Args[0].Sym, macT.Args[0].Sym)
+						if err != nil || len(table) == 0 {
+							unknown = true
+							continue
+						}
+						for _, name := range table {
+							sz, ok := hashSizes[name]
+							note(sz, ok)
+							if !ok {
+								unknown = true
+							}
+						}
+					case macT.Op == "call" && macT.Sym == "crypto/hmac.New" && len(macT.Args) == 2:
+						for _, h := range macT.Args[0].Alts() {
+							sz, ok := hashSizes[h.Sym]
+							if h.Op != "fn" || !ok {
+								unknown = true
+								continue
+							}
+							note(sz, true)
+						}
+					default:
+						unknown = true
+					}
+				}
+			}
+		}
+		if unknown {
+			x.sumLo, x.sumHi = nil, nil
 		}
 	}
 	// documented exclusions as assumptions
@@ -979,16 +1019,12 @@ func (x *c10ctx) checkAssertion(f *ssa.Function, ta *ssa.TypeAssert) {
 		if e, info := w.GlobalInit(OtpPath, name); e != nil {
 			lit := EvalLit(e, info)
 			if lit != nil && lit.Kind == "struct" {
-				if nf := lit.Field("New"); nf != nil && nf.Kind == "func" {
-					for _, g := range w.ModuleFuncs(OtpPath) {
-						if g.Syntax() == ast.Node(nf.Func) {
-							newOK = true
-							for _, r := range Returns(g) {
-								mi, ok := r.Results[0].(*ssa.MakeInterface)
-								if !ok || !types.Identical(mi.X.Type(), ta.AssertedType) {
-									newOK = false
-								}
-							}
+				if g := litFunc(w, OtpPath, lit.Field("New")); g != nil {
+					newOK = true
+					for _, r := range Returns(g) {
+						mi, ok := r.Results[0].(*ssa.MakeInterface)
+						if !ok || !types.Identical(mi.X.Type(), ta.AssertedType) {
+							newOK = false
 						}
 					}
 				}
